@@ -10,6 +10,9 @@
 #![allow(unused_imports, dead_code, unused_variables, unused_mut, unused_unsafe, non_snake_case, unused_assignments)]
 use vstd::prelude::*;
 use std::cmp;
+use std::sync::Arc;
+use std::cell::Cell;
+use std::marker::PhantomData;
 use std::mem;
 use vstd::std_specs::cmp::OrdSpec;
 verus! {
@@ -21,10 +24,26 @@ global size_of usize == 8;
 pub const RESERVED_SIZE: usize = 32;
 pub const MAX_FDS_IN_CMSG: u32 = 64;
 pub mod libc {
+    // x86_64-linux-gnu values of the libc crate's constants the extracted code may mention
     pub const ENOBUFS: i32 = 105;
     pub const EMSGSIZE: i32 = 90;
     pub const EAGAIN: i32 = 11;
     pub const EWOULDBLOCK: i32 = 11;
+    pub const EINTR: i32 = 4;
+    pub const EINVAL: i32 = 22;
+    pub const EPIPE: i32 = 32;
+    pub const ECONNRESET: i32 = 104;
+    pub const ENOMEM: i32 = 12;
+    pub const EIO: i32 = 5;
+    pub const E2BIG: i32 = 7;
+    pub const ETOOMANYREFS: i32 = 109;
+    pub const MSG_PEEK: i32 = 0x2;
+    pub const MSG_TRUNC: i32 = 0x20;
+    pub const MSG_DONTWAIT: i32 = 0x40;
+    pub const MSG_WAITALL: i32 = 0x100;
+    pub const MSG_NOSIGNAL: i32 = 0x4000;
+    pub const MSG_CMSG_CLOEXEC: i32 = 0x40000000;
+    pub const O_NONBLOCK: i32 = 2048;
 }
 
 #[verifier::external_type_specification]
